@@ -54,7 +54,13 @@ void calcVarExpressed(double ss, dvector *eval, dvector *varexp)
 /* ss is the sum of squares, eval = eigenvalue  varexp is an object that is resized for each component */
 {
   for(size_t i = 0; i < eval->size; i++){
-    DVectorAppend(varexp, (eval->data[i]/ss) * 100);
+    if(ss > 0.f){
+      DVectorAppend(varexp, (eval->data[i]/ss) * 100);
+    }
+    else{
+      /* no variance at all (constant data): nothing can be explained, 0 instead of 0/0 */
+      DVectorAppend(varexp, 0.f);
+    }
     #ifdef DEBUG
     printf("Variance expressed for PC %u\t %f\n", (unsigned int)i, (getDVectorValue(eval, i)/ss) * 100);
     #endif
